@@ -1,4 +1,5 @@
 import TxV.Core.Example2
+import TxV.Core.Topo
 /-!
 # C08 — conflict priorities are respected
 
@@ -35,9 +36,10 @@ theorem c08_schedule_before_never_blocks (he : Eager D v S run) {t : Nat} (ht : 
     (en : FullyEnabled D v run t) (hfree : ∀ t', S.cgr t t' = true → run t' = false) : run t = true :=
   runs_if_unblocked he ht en.1 en.2 hfree
 
--- OBLIGATION c08_validOrder_acyclic_partial : PARTIAL (one direction of `topo_exists : acyclic pgr ↔ ∃ order, validOrder`): a valid order exists only if the priority constraints have no cycle, in particular no self-loop; the converse (construction of an order for an acyclic graph, i.e. correctness of the topological sort) is NOT proved — the order used is the implementation's, checked by validOrderB
-theorem c08_validOrder_acyclic_partial (h : ValidOrder D S) (x : Nat) : ¬ PgrPath D x x :=
-  validOrder_acyclic h x
+-- OBLIGATION c08_topo_exists : the priority constraints (lifted LEFT/RIGHT relations, conflicting or schedule_before) of a design are acyclic — no path of pgr edges from a transaction to itself, in particular no self-loop — if and only if a valid priority order exists, and it can be chosen injective on the transactions (every design; ties rejection of cyclic priorities, C11, to the existence of porder)
+theorem c08_topo_exists (D : Design) (cgr : Nat → Nat → Bool) :
+    (∀ x, ¬ PgrPath D x x) ↔ ∃ ord : Nat → Nat, ValidOrder D ⟨ord, cgr⟩ ∧ OrdInj D ⟨ord, cgr⟩ :=
+  topo_exists D cgr
 
 -- OBLIGATION c08_validOrder_of_check : the executable order check implies ValidOrder
 theorem c08_validOrder_of_check (hb : Bounded D) (h : validOrderB D S = true) : ValidOrder D S :=
@@ -59,5 +61,5 @@ end TxV.Core
 #print axioms TxV.Core.c08_left
 #print axioms TxV.Core.c08_right
 #print axioms TxV.Core.c08_schedule_before_never_blocks
-#print axioms TxV.Core.c08_validOrder_acyclic_partial
+#print axioms TxV.Core.c08_topo_exists
 #print axioms TxV.Core.c08_validOrder_of_check
